@@ -153,6 +153,13 @@ type c07ExprSite struct {
 	modes []string // emb | whole | bare
 	tags  []string
 	place func(w *c07WF, t *c07Node)
+	// a second diagnosed construct of ANOTHER rule in the same scalar: fixed text before / after
+	// the generated text, the message it causes and where (decoOff < 0: at the scalar; otherwise the
+	// offset inside decoPre, or inside decoPost when decoPre is empty)
+	decoPre, decoPost, decoMsg string
+	decoOff                    int
+	tight                      bool // the scalar may contain no blank (each would be a diagnostic)
+	noInner                    bool // no blanks at the start / end of the scalar
 }
 
 const (
@@ -242,9 +249,9 @@ func c07ExprSites() []c07ExprSite {
 			exc.set("ver", t)
 			m.set("exclude", c07Q(exc))
 		}},
-		{name: "job.if", class: "if-placeholder", modes: []string{"whole"}, tags: tg("nomatrix norunner nohashfiles"), place: func(w *c07WF, t *c07Node) { w.job.set("if", t) }},
+		{name: "job.if", class: "if-placeholder", modes: []string{"whole"}, noInner: true, tags: tg("nomatrix norunner nohashfiles"), place: func(w *c07WF, t *c07Node) { w.job.set("if", t) }},
 		{name: "job.if-bare", class: "bare-if", modes: []string{"bare"}, tags: tg("nomatrix norunner nohashfiles"), place: func(w *c07WF, t *c07Node) { w.job.set("if", t) }},
-		{name: "step.if", class: "if-placeholder", modes: []string{"whole"}, tags: tg("hashfiles"), place: func(w *c07WF, t *c07Node) { w.runStep.set("if", t) }},
+		{name: "step.if", class: "if-placeholder", modes: []string{"whole"}, noInner: true, tags: tg("hashfiles"), place: func(w *c07WF, t *c07Node) { w.runStep.set("if", t) }},
 		{name: "step.if-bare", class: "bare-if", modes: []string{"bare"}, tags: tg("hashfiles"), place: func(w *c07WF, t *c07Node) { w.runStep.set("if", t) }},
 		{name: "step.if-bare-uses", class: "bare-if", modes: []string{"bare"}, tags: tg("hashfiles"), place: func(w *c07WF, t *c07Node) { w.usesStep.set("if", t) }},
 		{name: "step.name", class: "string-value", modes: []string{"emb", "whole"}, tags: tg(c07TagsStep), place: func(w *c07WF, t *c07Node) { w.runStep.set("name", t) }},
@@ -265,6 +272,74 @@ func c07ExprSites() []c07ExprSite {
 			m := w.root.sub("env")
 			m.ents = append(m.ents, &c07Ent{t, c07S("v")})
 		}},
+		// ---- further positions whose value must be one expression
+		{name: "wf.env-expr", class: "typed-value", modes: []string{"whole"}, tags: tg("nomatrix norunner nohashfiles noalways"), place: func(w *c07WF, t *c07Node) { w.root.set("env", t) }},
+		{name: "job.env-expr", class: "typed-value", modes: []string{"whole"}, tags: tg("norunner nohashfiles noalways"), place: func(w *c07WF, t *c07Node) { w.job.set("env", t) }},
+		{name: "step.env-expr", class: "typed-value", modes: []string{"whole"}, tags: tg("noalways hashfiles"), place: func(w *c07WF, t *c07Node) { w.runStep.set("env", t) }},
+		{name: "call-event.input.required", class: "typed-value", modes: []string{"whole"}, tags: tg("nocontext"), place: func(w *c07WF, t *c07Node) {
+			i := w.workflowCall().sub("inputs").sub("level")
+			i.str("type", "string")
+			i.set("required", t)
+		}},
+		{name: "matrix.include-expr", class: "typed-value", modes: []string{"whole"}, tags: tg("nomatrix norunner nohashfiles noalways"), place: func(w *c07WF, t *c07Node) {
+			m := w.job.sub("strategy").sub("matrix")
+			m.set("os", c07QS("linux", "mac"))
+			m.set("include", t)
+		}},
+		{name: "matrix.exclude-expr", class: "typed-value", modes: []string{"whole"}, tags: tg("nomatrix norunner nohashfiles noalways"), place: func(w *c07WF, t *c07Node) {
+			m := w.job.sub("strategy").sub("matrix")
+			m.set("os", c07QS("linux", "mac"))
+			m.set("exclude", t)
+		}},
+		{name: "matrix.include-element-expr", class: "typed-value", modes: []string{"whole"}, tags: tg("nomatrix norunner nohashfiles noalways"), place: func(w *c07WF, t *c07Node) {
+			m := w.job.sub("strategy").sub("matrix")
+			m.set("os", c07QS("linux", "mac"))
+			m.set("include", c07Q(t))
+		}},
+		// ---- pairs: two constructs diagnosed by different rules in one scalar
+		{name: "pair.path-filter+expr", class: "string-value", modes: []string{"emb"}, tags: tg("nocontext"), noInner: true,
+			decoPre: "src/a*?b ", decoMsg: "unexpected character '?' while checking special character ? (zero or one)", decoOff: 6,
+			place: func(w *c07WF, t *c07Node) { w.push.set("paths", c07Q(c07S("docs/**"), t)) }},
+		{name: "pair.path-ignore-filter+expr", class: "string-value", modes: []string{"emb"}, tags: tg("nocontext"), noInner: true,
+			decoPost: " x/[]", decoMsg: "unexpected character ']' while checking content of character match []", decoOff: 4,
+			place: func(w *c07WF, t *c07Node) { w.on.sub("pull_request").set("paths-ignore", c07Q(t)) }},
+		{name: "pair.ref-filter+expr", class: "string-value", modes: []string{"emb"}, tags: tg("nocontext"), noInner: true, tight: true,
+			decoPre: "v~", decoMsg: "character '~' is invalid for branch and tag names", decoOff: 1,
+			place: func(w *c07WF, t *c07Node) { w.push.set("tags", c07Q(t, c07S("v1.*"))) }},
+		{name: "pair.branch-filter+expr", class: "string-value", modes: []string{"emb"}, tags: tg("nocontext"), noInner: true, tight: true,
+			decoPost: "^", decoMsg: "character '^' is invalid for branch and tag names", decoOff: 0,
+			place: func(w *c07WF, t *c07Node) { w.on.sub("pull_request").set("branches", t) }},
+		{name: "pair.event-type+expr", class: "string-value", modes: []string{"emb"}, tags: tg("nocontext"), noInner: true,
+			decoPre: "bogus ", decoMsg: "invalid activity type \"bogus ", decoOff: -1,
+			place: func(w *c07WF, t *c07Node) { w.on.sub("pull_request").set("types", c07Q(c07S("opened"), t)) }},
+		{name: "pair.cron+expr", class: "string-value", modes: []string{"emb"}, tags: tg("nocontext"), noInner: true,
+			decoPre: "0 0 * * ", decoMsg: "invalid CRON format", decoOff: -1,
+			place: func(w *c07WF, t *c07Node) {
+				it := c07M()
+				it.set("cron", t)
+				w.on.set("schedule", c07Q(it))
+			}},
+		{name: "pair.password+expr", class: "string-value", modes: []string{"emb"}, tags: tg("norunner nohashfiles noalways template"), noInner: true,
+			decoPre: "hunter2 ", decoMsg: "\"password\" section in", decoOff: -1,
+			place: func(w *c07WF, t *c07Node) {
+				c := w.job.sub("container")
+				c.str("image", "node:20")
+				cr := c.sub("credentials")
+				cr.str("username", "me")
+				cr.set("password", t)
+			}},
+		{name: "pair.deprecated-command+expr", class: "string-value", modes: []string{"emb"}, tags: tg(c07TagsStep + " script"), noInner: true,
+			decoPre: "echo ::add-path::/x ", decoMsg: "workflow command \"add-path\" was deprecated", decoOff: -1,
+			place: func(w *c07WF, t *c07Node) { w.runStep.set("run", t) }},
+		{name: "pair.expr+deprecated-command", class: "string-value", modes: []string{"emb"}, tags: tg(c07TagsStep + " script"), noInner: true,
+			decoPost: " ; echo ::set-output name=a::b", decoMsg: "workflow command \"set-output\" was deprecated", decoOff: -1,
+			place: func(w *c07WF, t *c07Node) { w.runStep.set("run", t) }},
+		{name: "pair.if-extra-characters+expr", class: "if-placeholder", modes: []string{"emb"}, tags: tg("hashfiles"), noInner: true,
+			decoPost: " x", decoMsg: "is always evaluated to true because extra characters are around", decoOff: -1,
+			place: func(w *c07WF, t *c07Node) { w.runStep.set("if", t) }},
+		{name: "pair.job-if-extra-characters+expr", class: "if-placeholder", modes: []string{"emb"}, tags: tg("nomatrix norunner nohashfiles"), noInner: true,
+			decoPre: "x ", decoMsg: "is always evaluated to true because extra characters are around", decoOff: -1,
+			place: func(w *c07WF, t *c07Node) { w.job.set("if", t) }},
 		{name: "step.with", class: "string-value", modes: []string{"emb", "whole"}, tags: tg(c07TagsStep), place: func(w *c07WF, t *c07Node) { w.usesStep.sub("with").set("node-version", t) }},
 		{name: "step.with.script", class: "string-value", modes: []string{"emb", "whole"}, tags: tg(c07TagsStep + " script"), place: func(w *c07WF, t *c07Node) {
 			s := c07M()
@@ -1172,7 +1247,9 @@ func c07IsKeyOf(m, k *c07Node) bool {
 // c07Build constructs one case of a group from a seed; the same seed with a non-empty shift gives
 // the shifted rendering of the same case.
 // flowMode: 0 = holder style as drawn, 'b' = block holder, 'f' = flow holder if the holder allows it.
-func c07Build(group string, seed uint64, sh c07Shift, cat *c07Catalogue, forceStyle byte, flowMode byte) *c07Built {
+// neighbour: a second, independent diagnosed construct is added after the target in the same
+// holder (a further mapping entry or sequence element holding an erroneous placeholder).
+func c07Build(group string, seed uint64, sh c07Shift, cat *c07Catalogue, forceStyle byte, flowMode byte, neighbour bool) *c07Built {
 	rr := &Rand{s: seed}
 	b := &c07Built{group: group, ok: true, info: map[string]int{}}
 	w := c07NewWF(rr)
@@ -1192,6 +1269,26 @@ func c07Build(group string, seed uint64, sh c07Shift, cat *c07Catalogue, forceSt
 		return b
 	}
 	b.flowAllowed = !b.flowVeto
+	if neighbour {
+		path := c07Path(b.root, b.target)
+		nb := c07SQ("${{ nope9.neighbour }}", c07Double)
+		added := false
+		for i := len(path) - 2; i >= 0 && !added; i-- {
+			h := path[i]
+			switch h.kind {
+			case c07Map:
+				h.ents = append(h.ents, &c07Ent{c07S("zz_neighbour"), nb})
+				added = true
+			case c07Seq:
+				h.items = append(h.items, nb)
+				added = true
+			}
+		}
+		if !added {
+			b.ok, b.why = false, "no holder for a neighbour"
+			return b
+		}
+	}
 	switch flowMode {
 	case 'b':
 		wantFlow = false
